@@ -9,10 +9,14 @@ open Core Faces Femio.C10
 
 structure Cfg where
   pyrArgsort : Bool
+  /-- repair e608c63: `make_elements_positive` evaluates the signed metric of the current connectivity itself
+      (`elements=self.elements, update=False`) and drops the stored `metric` / `volume` entries after a permutation,
+      instead of deciding from whatever `elemental_data['metric']` an earlier call on the same object left behind -/
+  freshMetric : Bool := true
 deriving Repr, DecidableEq
 
-def Cfg.fixed : Cfg := ⟨true⟩
-def Cfg.upstream : Cfg := ⟨false⟩
+def Cfg.fixed : Cfg := ⟨true, true⟩
+def Cfg.upstream : Cfg := ⟨false, false⟩
 
 /-! ### id -> storage position as the njit kernels compute it -/
 
@@ -119,4 +123,91 @@ def fanCentroid (zero : R) (pt : Nat → V3 R) (f : List Nat) : R :=
     sumR zero (((l :: f).zip f).map fun (a, b) => det s (pt a) (pt b))
 
 end Kernels
+
+/-! ### histories of public calls on ONE object (tet meshes)
+
+    `calculate_element_volumes()` / `calculate_element_metrics()` answer from the stored `elemental_data['volume']` /
+    `['metric']` entry when there is one (early return through `_validate_metric`, options applied to the STORED array,
+    nothing written back) and store what they return otherwise; `make_elements_positive()` is the only call that
+    changes the connectivity. Transcribed as the code is (including "the stored entry ignores the options of later
+    calls", which is property C19's open finding, not C18's business). -/
+
+inductive HOp where
+  /-- `calculate_element_metrics(raise_negative_metric, return_abs_metric)` -/
+  | metrics (raiseNeg abs : Bool)
+  /-- `calculate_element_volumes(raise_negative_volume, return_abs_volume)` (mode is irrelevant for tetrahedra) -/
+  | volumes (raiseNeg abs : Bool)
+  /-- `make_elements_positive()` -/
+  | positive
+deriving Repr, DecidableEq
+
+structure HState (R : Type) where
+  elems : List Elem
+  metric : Option (List R)
+  volume : Option (List R)
+
+section History
+open V3 Geom
+variable {R : Type} [Add R] [Sub R] [Mul R] [Neg R] [LT R] [DecidableLT R]
+
+def absR (zero : R) (x : R) : R := if x < zero then -x else x
+
+def anyNeg (zero : R) (xs : List R) : Bool := xs.any fun x => decide (x < zero)
+
+/-- `_validate_metric`; `none` = `ValueError("Negative metric found")`. A new array is returned for
+    `return_abs_metric=True` (`np.abs`), the argument is never written to. -/
+def validate (zero : R) (raiseNeg abs : Bool) (xs : List R) : Option (List R) :=
+  if raiseNeg && anyNeg zero xs then none else some (if abs then xs.map (absR zero) else xs)
+
+def signedVols (zero : R) (pt : Nat → V3 R) (es : List Elem) : List R := es.map fun e => tetVol6 zero pt e.conn
+
+/-- `calculate_element_volumes(elements=None, update=True)`: (new state, returned array) -/
+def stepVolumes (zero : R) (pt : Nat → V3 R) (r a : Bool) (s : HState R) : HState R × Option (List R) :=
+  match s.volume with
+  | some v => (s, validate zero r a v)
+  | none =>
+    match validate zero r a (signedVols zero pt s.elems) with
+    | none => (s, none)
+    | some v => ({ s with volume := some v }, some v)
+
+/-- `calculate_element_metrics(elements=None, update=True)`: without a stored `metric` it calls
+    `calculate_element_volumes(elements=self.elements, update=True)` (which by-passes the stored `volume`, validates,
+    and overwrites `volume`), validates once more (idempotent on a validated array) and stores `metric`. -/
+def stepMetrics (zero : R) (pt : Nat → V3 R) (r a : Bool) (s : HState R) : HState R × Option (List R) :=
+  match s.metric with
+  | some v => (s, validate zero r a v)
+  | none =>
+    match validate zero r a (signedVols zero pt s.elems) with
+    | none => (s, none)
+    | some v => ({ s with volume := some v, metric := some v }, some v)
+
+def permuted (e : Elem) : Elem := ⟨e.id, e.ty, (pick e.conn tetPermute).getD e.conn⟩
+
+/-- `elements[cond] = _permute(elements[cond])` with `cond = metric < 0` (an element without a metric entry is kept) -/
+def permuteNeg (zero : R) : List R → List Elem → List Elem
+  | x :: xs, e :: es => (if x < zero then permuted e else e) :: permuteNeg zero xs es
+  | _, es => es
+
+def stepPositive (cfg : Cfg) (zero : R) (pt : Nat → V3 R) (s : HState R) : HState R :=
+  if cfg.freshMetric then
+    let m := signedVols zero pt s.elems
+    if anyNeg zero m then { elems := permuteNeg zero m s.elems, metric := none, volume := none } else s
+  else
+    let q := stepMetrics zero pt false false s
+    match q.2 with
+    | none => q.1
+    | some m => if anyNeg zero m then { q.1 with elems := permuteNeg zero m q.1.elems } else q.1
+
+def stepH (cfg : Cfg) (zero : R) (pt : Nat → V3 R) (s : HState R) : HOp → HState R
+  | .metrics r a => (stepMetrics zero pt r a s).1
+  | .volumes r a => (stepVolumes zero pt r a s).1
+  | .positive => stepPositive cfg zero pt s
+
+def runH (cfg : Cfg) (zero : R) (pt : Nat → V3 R) (s : HState R) (h : List HOp) : HState R :=
+  h.foldl (stepH cfg zero pt) s
+
+/-- a freshly built object: nothing stored -/
+def fresh0 (es : List Elem) : HState R := ⟨es, none, none⟩
+
+end History
 end Femio.C18
